@@ -1,5 +1,7 @@
 #![allow(dead_code)]
 //! `check <property> [--tier quick|thorough] [--replay <file>]`
+mod c01;
+mod c02;
 mod c04;
 mod c05;
 mod c06;
@@ -16,6 +18,12 @@ mod c17;
 mod c18;
 mod c19;
 mod common;
+mod csem;
+mod ctext;
+mod exec;
+mod irsem;
+mod vals;
+mod xshape;
 mod progen;
 
 use common::*;
@@ -30,6 +38,8 @@ type CheckFn = fn(&serde_json::Value) -> Verdict;
 
 fn lookup(id: &str) -> Option<(RunFn, CheckFn)> {
     Some(match id {
+        "C01" => (c01::run, c01::check_record),
+        "C02" => (c02::run, c02::check_record),
         "C04" => (c04::run, c04::check_record),
         "C05" => (c05::run, c05::check_record),
         "C06" => (c06::run, c06::check_record),
@@ -124,6 +134,104 @@ fn main() {
     if id == "--worker-c07" {
         install_panic_hook();
         c07::worker(&args[1]);
+        return;
+    }
+    if id == "irrun" {
+        // check irrun <n> [seed]: run the IR interpreter over generated programs (debugging aid)
+        install_panic_hook();
+        let n: usize = args.get(1).and_then(|s| s.parse().ok()).unwrap_or(200);
+        let seed: u64 = args.get(2).and_then(|s| s.parse().ok()).unwrap_or(1);
+        let mut stats: std::collections::BTreeMap<String, usize> = Default::default();
+        for ch in sample_strategy(&progen::choices_strategy(500), seed, n) {
+            let (_p, text, _) = progen::generate(&ch, progen::Profile::exec_hlsl());
+            let m = match type_check_text(&text) {
+                Ok(Ok(m)) => m,
+                other => {
+                    *stats.entry(format!("front end: {:?}", other.err())).or_default() += 1;
+                    continue;
+                }
+            };
+            for id in m.function_registry.iter() {
+                if m.function_registry.get_intrinsic_data(id).is_some() {
+                    continue;
+                }
+                let Some(imp) = m.function_registry.get_function_implementation(id).clone() else { continue };
+                let mut it = irsem::Interp::new(&m);
+                if let Err(e) = it.init_globals() {
+                    *stats.entry(format!("globals: {:?}", e)).or_default() += 1;
+                    continue;
+                }
+                let mut argv = Vec::new();
+                let mut ok = true;
+                for p in &imp.params {
+                    match it.zero(p.param_type.type_id) {
+                        Ok(v) => argv.push(v),
+                        Err(_) => ok = false,
+                    }
+                }
+                if !ok {
+                    *stats.entry("param type".into()).or_default() += 1;
+                    continue;
+                }
+                match it.run_function(id, &argv) {
+                    Ok((r, _)) => {
+                        *stats.entry("ok".into()).or_default() += 1;
+                        if args.iter().any(|a| a == "show") {
+                            println!("{} -> {}", m.function_registry.get_function_name(id), vals::show(&r));
+                        }
+                    }
+                    Err(e) => {
+                        let key = format!("{:?}", e);
+                        if !stats.contains_key(&key) && args.iter().any(|a| a == "ex") {
+                            println!("=== {}\n{}", key, text);
+                        }
+                        *stats.entry(key).or_default() += 1;
+                    }
+                }
+            }
+        }
+        for (k, v) in stats {
+            println!("{:6} {}", v, k);
+        }
+        return;
+    }
+    if id == "exrun" {
+        // check exrun <n> <seed> <dx|vk|msl> [ex] [file <path>]: differential execution over generated programs (debugging aid)
+        install_panic_hook();
+        let n: usize = args.get(1).and_then(|s| s.parse().ok()).unwrap_or(200);
+        let seed: u64 = args.get(2).and_then(|s| s.parse().ok()).unwrap_or(1);
+        let tgt = args.get(3).map(|s| Tgt::from_name(s)).unwrap_or(Tgt::Dx);
+        let mut stats: std::collections::BTreeMap<String, usize> = Default::default();
+        let prof = if exec::dialect_of(tgt) == csem::Dialect::Msl { progen::Profile::exec_msl() } else { progen::Profile::exec_hlsl() };
+        let mut texts: Vec<String> = Vec::new();
+        if let Some(i) = args.iter().position(|a| a == "file") {
+            texts.push(std::fs::read_to_string(&args[i + 1]).expect("read"));
+        } else {
+            for ch in sample_strategy(&progen::choices_strategy(500), seed, n) {
+                texts.push(progen::generate(&ch, prof.clone()).1);
+            }
+        }
+        for text in texts {
+            match exec::check_exec(&text, tgt, seed, 3) {
+                Verdict::Pass { labels, .. } => {
+                    *stats.entry("PASS".into()).or_default() += 1;
+                    for l in labels {
+                        *stats.entry(format!("  label {}", l)).or_default() += 1;
+                    }
+                }
+                Verdict::Skip(r) => *stats.entry(format!("SKIP {}", r)).or_default() += 1,
+                Verdict::Fail { signature, detail } => {
+                    let key = format!("FAIL {}", signature);
+                    if !stats.contains_key(&key) && args.iter().any(|a| a == "ex") {
+                        println!("=== {}\n--- source\n{}\n--- detail\n{}", key, text, detail);
+                    }
+                    *stats.entry(key).or_default() += 1;
+                }
+            }
+        }
+        for (k, v) in stats {
+            println!("{:6} {}", v, k);
+        }
         return;
     }
     if id == "dump" {
